@@ -16,6 +16,9 @@ use std::sync::{Arc, Mutex, Once};
 pub struct Job {
     pub id: String,
     pub header: Option<String>,
+    /// Input headers given through `Builder::header` (library use with several
+    /// `.header()` calls; the command line only ever has one).
+    pub headers: Vec<String>,
     pub contents: Vec<(String, String)>,
     pub flags: Vec<String>,
     /// Prepend the flags the repository's own test harness prepends.
@@ -34,6 +37,7 @@ impl Job {
         Job {
             id: jstr(v, "id").unwrap_or("").to_string(),
             header: jstr(v, "header").map(|s| s.to_string()),
+            headers: jstrs(v, "headers"),
             contents: v
                 .get("contents")
                 .and_then(|c| c.as_array())
@@ -422,9 +426,25 @@ pub fn run_job(job: &Job, opts: &RunOpts) -> Value {
     }
     bindgen::verif::steps::arm(opts.arm_steps);
     let result = catch_unwind(AssertUnwindSafe(|| {
-        let (mut builder, _, _) =
+        let mut builder = if job.header.is_none() && !job.headers.is_empty() {
+            // Library use with several `.header()` calls: the command-line
+            // parser insists on exactly one header, so build the Builder
+            // directly (only the clang arguments after `--` are honoured).
+            let mut b = bindgen::builder()
+                .formatter(bindgen::Formatter::None)
+                .disable_header_comment();
+            for h in &job.headers {
+                b = b.header(h.clone());
+            }
+            if let Some(i) = job.flags.iter().position(|f| f == "--") {
+                b = b.clang_args(job.flags[i + 1..].iter().cloned());
+            }
+            b
+        } else {
             bindgen::builder_from_flags(args.into_iter())
-                .map_err(|e| format!("flags: {e}"))?;
+                .map_err(|e| format!("flags: {e}"))?
+                .0
+        };
         for (name, text) in &job.contents {
             builder = builder.header_contents(name, text);
         }
